@@ -8,7 +8,7 @@
    order, flat); [model_outputs] runs the transcription of the Go walks over
    mutable per-verifier state. *)
 From Coq Require Import List Bool Arith.
-From Martian.C13 Require Import Model Proofs.
+From Martian.C13 Require Import Model Proofs Gen_Locks Proofs_Locks.
 Import ListNotations.
 
 (* A query returns exactly the unmet evaluations since the last reset: for
@@ -150,6 +150,24 @@ Theorem C13_concurrent_oracle_is_the_property : forall lo hi obs,
   /\ NoDup obs.
 Proof. exact c13_conc_ok_iff. Qed.
 Print Assumptions C13_concurrent_oracle_is_the_property.
+
+(* oracle of the "operation racing with one parked message" scenario: the
+   answers are those of one of the two sequential orders (the state-machine
+   model, where every operation is one step, has no third outcome:
+   C13_query_exact applied to either order) *)
+Theorem C13_atomicity_oracle_is_the_property : forall c h1 h2 observed,
+  c13_either_ok c h1 h2 observed = true <->
+  observed = spec_outputs c h1 \/ observed = spec_outputs c h2.
+Proof. exact c13_either_ok_iff. Qed.
+Print Assumptions C13_atomicity_oracle_is_the_property.
+
+(* The atomicity assumption tied to the source: the lock table regenerated
+   from fifo/fifo_group.go, martianhttp/martianhttp.go and multierror.go on
+   every run satisfies the discipline (per kind: traffic shares, query and
+   reset exclusively hold, the SAME mutex; MultiError mutations exclusive). *)
+Theorem C13_lock_discipline_read_from_source : discipline_ok gen_locks = true.
+Proof. exact source_lock_discipline. Qed.
+Print Assumptions C13_lock_discipline_read_from_source.
 
 Theorem C13_model_agrees_with_spec : forall c h, model_agrees c h = true.
 Proof. exact model_agrees_true. Qed.
